@@ -130,7 +130,10 @@ func handleShareMemoryByFilePath(s *Session, hdr header) error {
 		}
 		return err
 	}
-	bufferPath, queuePath := s.extractShmMetadata(body)
+	bufferPath, queuePath, err := s.extractShmMetadata(body)
+	if err != nil {
+		return err
+	}
 	qm, err := mappingQueueManager(queuePath)
 	if err != nil {
 		return fmt.Errorf("handleShareMemoryByFilePath mappingQueueManager failed,queuePathLen:%d path:%s err=%s",
@@ -196,7 +199,10 @@ func handleShareMemoryByMemFd(s *Session, h header) error {
 	if err != nil {
 		return errors.New("read shm metadata failed,reason:" + err.Error())
 	}
-	bufferPath, queuePath := s.extractShmMetadata(body)
+	bufferPath, queuePath, err := s.extractShmMetadata(body)
+	if err != nil {
+		return err
+	}
 
 	//2.send AckReadyRecvFD
 	ack := header(make([]byte, headerSize))
